@@ -78,7 +78,10 @@ def gate():
     """grep gate over every .v file of the development; returns list of offending (file, word)"""
     bad = []
     for f in vfiles() + [os.path.relpath(x, COQ) for x in glob.glob(os.path.join(COQ, "Run", "*.v"))]:
-        txt = comment_free(open(os.path.join(COQ, f)).read())
+        try:
+            txt = comment_free(open(os.path.join(COQ, f)).read())
+        except FileNotFoundError:      # a scratch file that vanished between the glob and the open
+            continue
         for m in FORBIDDEN.finditer(txt):
             bad.append((f, m.group(0)))
         # Variable/Hypothesis outside a section
